@@ -345,3 +345,38 @@ PROPS["C18"] = {
         leg("cxx-allocators", "c18_faults", (3, 4), {"kind": "cxx"}, flags=(), what="scalable_allocator::allocate throws std::bad_alloc"),
     ],
 }
+
+# ------------------------------------------------------------------------------------------------ C05 / C06 (vtbb)
+VTBB_RULE = ("one case = one input (range size, grain, partitioner, number of virtual workers, ...); for every case all task-level schedules of the abstract scheduler "
+             "(which worker pops / steals / takes mail next, optional interleaving inside bodies) with at most `bound` deviations from the serial order are executed on the real "
+             "algorithm templates; distinct = distinct outcome strings (chunk lists, steal counts, terms)")
+PROPS["C05"] = {
+    "explanation": "The real parallel_for / partitioner / range templates run on the abstract task scheduler vtbb (engine/vtbb.cpp: P virtual workers, LIFO pop, FIFO steal, affinity mail; "
+                   "every 'who takes which task next' is an explorer choice). Inputs: blocked_range(0,n,g) for all n, g, 4 partitioners (affinity twice), P=1..3; 2d/3d/nd ranges; huge "
+                   "ranges up to 2^64-3 whose chunks must tile the range; strided loops incl. index types at their limits; parallel_for_each (random-access / forward iterators, feeder); "
+                   "parallel_invoke 2..10; an indivisible range. Oracle: per-element count exactly once, chunks non-empty/disjoint/covering, simple_partitioner chunk-size bound. "
+                   "A leg on the real scheduler (one real worker) repeats the exactly-once oracle for small loops.",
+    "rule": VTBB_RULE,
+    "legs": [
+        leg("pfor-1d", "c05_pfor", (3, 3), {"nmax": 24, "gmax": 4, "pmax": 3}, flags=(), what="blocked_range(0,n,g): n<=24, g<=4, 4 partitioners, P<=3", weight=4.0),
+        leg("pfor-1d-wide", "c05_pfor", (2, 2), {"nmax": 64, "gmax": 9, "pmax": 4}, flags=(), what="blocked_range(0,n,g): n<=64, g<=9, 4 partitioners, P<=4", tiers=("thorough",), weight=3.0),
+        leg("pfor-1d-32", "c05_pfor", (3, 3), {"nmax": 32, "gmax": 5, "pmax": 3}, flags=(), what="n<=32, g<=5 at three deviations", tiers=("thorough",), weight=8.0),
+        leg("pfor-1d-deep", "c05_pfor", (4, 4), {"nmax": 12, "gmax": 3, "pmax": 3}, flags=(), what="n<=12 at four deviations", tiers=("thorough",), weight=2.0),
+        leg("other-spaces", "c05_more", (2, 3), {}, flags=(), what="2d/3d/nd, huge ranges, strided loops, parallel_for_each, parallel_invoke, indivisible range", weight=3.0),
+        leg("rt-pfor-simple", "c01_rt", (2, 3), {"kind": "pfor"}, flags=("-fp", "-hb"), what="real scheduler: parallel_for over 4 elements, simple_partitioner"),
+        leg("rt-pfor-auto", "c01_rt", (2, 3), {"kind": "pfor_auto"}, flags=("-fp", "-hb"), what="real scheduler: parallel_for(0,5), auto_partitioner"),
+        leg("rt-pfor-affinity", "c01_rt", (2, 3), {"kind": "pfor_aff"}, flags=("-fp", "-hb"), what="real scheduler: affinity_partitioner, second run"),
+    ],
+}
+PROPS["C06"] = {
+    "explanation": "The real parallel_reduce / parallel_deterministic_reduce / parallel_scan / parallel_sort templates on the abstract scheduler vtbb. reduce: operands in the free monoid "
+                   "(lists, concatenation) so any reorder/loss/duplication shows, functional and Body form, 4 partitioners, n<=13, g<=3, P<=3, split bodies destroyed; deterministic reduce: "
+                   "the recorded split/join term must be the same for every schedule and every P; scan: final pass once per element with the sequential prefix; sort: every inversion "
+                   "position for n=500..520 (pre-test + partition path) and other shapes, all permutations of <=6 keys, all 3-valued sequences of length <=6.",
+    "rule": VTBB_RULE,
+    "legs": [
+        leg("reduce-scan", "c06_reduce", (3, 4), {}, flags=(), what="parallel_reduce (2 forms), parallel_deterministic_reduce, parallel_scan (2 forms)", weight=2.0),
+        leg("sort", "c06_sort", (2, 3), {}, flags=(), what="parallel_sort: 29025 inputs around the 500-element cutoff and exhaustive small inputs", weight=3.0),
+        leg("rt-reduce", "c03_rt", (2, 3), {"kind": "reduce_body", "mask": 0}, flags=("-fp",), what="real scheduler: parallel_reduce over 4 elements (no fault), completes with every body exactly once"),
+    ],
+}
